@@ -47,6 +47,14 @@ def run_plan(version: str, cmds: list, wakes: list, plan: list, fault: str = "fa
         if phase == "final":
             s.transport.fail_plan = None
         for n in wl:
+            if isinstance(n, list) and n[0] == "version":
+                # not a wake: the gateway reports another release; from now on that protocol's wake message counts
+                out = s.line(f"0;255;3;0;2;{n[1]}")
+                wt = R.wake_type(R.spec_protocol(n[1]))
+                trace.append({"version_report": n[1], "phase": phase, "attempts": out.attempts, "outcome": out.describe()})
+                if out.kind != "yield" or out.attempts:
+                    bad("version-report-step", f"the version report {n[1]!r} gave {out.describe()}")
+                continue
             if isinstance(n, list):
                 # not a wake: the (sleeping) node requests the value of child/type of a parked set command
                 rk = n[1]
@@ -127,6 +135,13 @@ def run(ctx: core.Ctx) -> core.Report:
     req_seqs = [[["req", [1, 3, 1, 2]]], [["req", [1, 3, 1, 2]], 1], [1, ["req", [1, 3, 1, 2]]], [["req", [1, 3, 1, 3]], ["req", [1, 3, 1, 2]], 1], [["req", [2, 3, 1, 2]], 2]]
     jobs = [(v, [list(k) for k in sub], w, "failed") for v in versions for sub in subsets for w in wake_seqs]
     jobs += [(v, [list(k) for k in sub], w, "failed") for v in versions for sub in subsets if len(sub) <= 3 for w in req_seqs]
+    # the gateway reports another 2.x release between a failed release and the retry
+    for v in versions:
+        for nv in ("2.0.0", "2.1.1", "2.2.0"):
+            if R.spec_protocol(nv) == v:
+                continue
+            for w in ([["version", nv]], [1, ["version", nv]], [1, ["version", nv], 1], [["version", nv], 1, 2], [1, ["version", nv], ["version", v], 1]):
+                jobs += [(v, [list(k) for k in sub], w, "failed") for sub in subsets if len(sub) <= 2 or (len(sub) == 3 and KEYS[4] in sub)]
     # the Transport contract is TransportError: also a plain TransportError and a transport's own subclass
     jobs += [(versions[-1], [list(k) for k in sub], w, f) for f in ("plain", "custom") for sub in subsets if len(sub) <= 3 for w in wake_seqs if len(w) <= 2]
     res = core.pmap(explore_case, jobs, ctx.workers)
@@ -139,7 +154,7 @@ def run(ctx: core.Ctx) -> core.Report:
     cov = {
         "evaluations": n_exec,
         "distinct_nontrivial": n_faulty,
-        "rule": "for every non-empty subset (size <= 4) of 5 commands (4 set commands over 2 nodes + 1 internal command) x every sequence of 1-3 wakes x every ok/fail assignment to the transport write attempts those wakes make (a tree: later attempts depend on earlier outcomes), (and 5 sequences in which the sleeping node requests the value of a parked command before or after its wake), followed by one fault-free wake of each node; plus 3 send-during-flush scenarios with one failing write (every schedule with <= 2 early firings); each execution is distinct; non-trivial = at least one write fails",
+        "rule": "for every non-empty subset (size <= 4) of 5 commands (4 set commands over 2 nodes + 1 internal command) x every sequence of 1-3 wakes x every ok/fail assignment to the transport write attempts those wakes make (a tree: later attempts depend on earlier outcomes), (and 5 sequences in which the sleeping node requests the value of a parked command before or after its wake, and 5 sequences in which the gateway reports another 2.x release between the wakes), followed by one fault-free wake of each node; plus 3 send-during-flush scenarios with one failing write (every schedule with <= 2 early firings); each execution is distinct; non-trivial = at least one write fails",
         "exhaustive": True,
         "bounds": {"versions": versions, "subsets": len(subsets), "wake_sequences": len(wake_seqs)},
         "samples": [{"version": jobs[i][0], "cmds": jobs[i][1], "wakes": jobs[i][2]} for i in (ctx.seed % len(jobs), len(jobs) - 1)],
